@@ -46,6 +46,7 @@ type Out struct {
 	OK     bool  // err == nil
 	Group  bool  // Query: returned type
 	Owners []int // Query: returned owners as address indexes (-1 = unknown address), in returned order
+	Wild   bool  // result unknown (operation still pending in a history prefix): any result the model allows
 }
 
 func (in In) String() string {
@@ -174,6 +175,15 @@ func (s *State) AbstractKey() uint64 {
 
 // Step returns every state the model may be in after `in` produced `out` in state s (empty = impossible).
 func Step(s *State, in In, out Out) []*State {
+	if out.Wild {
+		if in.Kind == OpQuery || in.Kind == OpJump || in.Kind == OpClean {
+			if in.Kind == OpQuery {
+				return []*State{s}
+			}
+			return Step(s, in, Out{OK: true})
+		}
+		return append(Step(s, in, Out{OK: true}), Step(s, in, Out{OK: false})...)
+	}
 	switch in.Kind {
 	case OpJump:
 		return []*State{mk(s.now+in.TTL, s.recs)}
